@@ -253,7 +253,13 @@ pub fn check_region(case: &str, got: &[u32], w: i32, h: i32, lines: &[Polyline],
 }
 
 pub fn eval(path: &PathSpec, st: &StyleSpec, xf: &Xf) -> Result<Stat, Violation> {
-    eval_with(path, st, xf, false)
+    // under a magnification of 1000 or more the reference for round-joined curves is the true
+    // curve: the flattening is asked to stay within 0.1 device pixel, so it may not be judged by
+    // its own output where the user unit is thousands of pixels (with round joins the region of
+    // the polyline and of the curve differ by no more than the flattening deviation)
+    let curved = path.ops.iter().any(|o| matches!(o, POp::Q(..) | POp::C(..) | POp::A(..)));
+    let mag = (xf[0] as f64 * xf[3] as f64 - xf[1] as f64 * xf[2] as f64).abs().sqrt();
+    eval_with(path, st, xf, curved && st.join == 1 && mag >= 1000.0)
 }
 
 /// `true_curve`: take the region of the true curve (finely sampled) instead of the region of
@@ -476,7 +482,7 @@ impl Check for C04 {
         });
         // flattened curves
         let cp: Vec<(f32, f32)> = vec![(4., 5.), (17., 3.), (31., 8.), (6., 19.), (18., 17.), (30., 21.), (5., 31.), (19., 29.), (32., 30.)];
-        run.bound("curves", format!("quads 9^3 and cubics 9^4 (thorough) with control points on a 3x3 set, width 4, round and miter joins, butt and round caps{}", if q { "; quick: quads only" } else { "" }));
+        run.bound("curves", format!("quads 9^3 and cubics 9^4 (thorough) with control points on a 3x3 set, width 4, round and miter joins, butt and round caps; round-joined quads and cubics in user units of 4096 and 16384 pixels judged against the true curve{}", if q { "; quick: quads only" } else { "" }));
         run.par(cp.len() * cp.len(), |s, l| {
             let (a, b) = (cp[s / cp.len()], cp[s % cp.len()]);
             if a == b {
@@ -505,6 +511,20 @@ impl Check for C04 {
                         let stk = StyleSpec { width: 4.0 * k, ..st.clone() };
                         account(run, 7000 + s, l, &path, &stk, &xf, false);
                     }
+                    // user units of 4096 / 16384 pixels (round joins: judged against the true curve)
+                    if join == 1 {
+                        for k in [1.0f32 / 4096.0, 1.0 / 16384.0] {
+                            if q && (s + if k < 1e-4 { 1 } else { 0 }) % 2 == 1 {
+                                continue;
+                            }
+                            let xf: Xf = [1.0 / k, 0., 0., 1.0 / k, 0., 0.];
+                            let path = PathSpec::new(vec![POp::M(a.0 * k, a.1 * k), POp::Q(b.0 * k, b.1 * k, c.0 * k, c.1 * k)]);
+                            let stk = StyleSpec { width: 4.0 * k, ..st.clone() };
+                            account(run, 7000 + s, l, &path, &stk, &xf, false);
+                            let path = PathSpec::new(vec![POp::M(a.0 * k, a.1 * k), POp::C(b.0 * k, b.1 * k, c.0 * k, c.1 * k, a.1 * k, b.0 * k)]);
+                            account(run, 7000 + s, l, &path, &stk, &xf, false);
+                        }
+                    }
                     if !q {
                         for d in &cp {
                             let path = PathSpec::new(vec![POp::M(a.0, a.1), POp::C(b.0, b.1, c.0, c.1, d.0, d.1)]);
@@ -519,7 +539,7 @@ impl Check for C04 {
         // the stroked region does not depend on the path's own fill rule, nor on the size of the
         // user unit: the same device geometry from a path 10^5 times smaller under scale 10^5
         // (every user-space segment is shorter than 2^-12), and 10^3 times larger under 10^-3
-        run.bound("fill-rule flag and extreme user units", "3-vertex polylines over the 16 grid points x (round cap, square cap, closed) x (round, miter 4) x width 8: path flagged EvenOdd; path / 1e5 under scale 1e5; path x 1e3 under scale 1e-3".to_string());
+        run.bound("fill-rule flag and extreme user units", "3-vertex polylines over the 16 grid points x (round cap, square cap, closed) x (round, miter 4) x width 8: path flagged EvenOdd; path / 1e5 under scale 1e5; path x 1e3 under scale 1e-3; path moved by (16384, 20000) and (-30000, 9000) under the opposite translation".to_string());
         run.par(g.len() * g.len(), |s, l| {
             let (i0, i1) = (s / g.len(), s % g.len());
             if i0 == i1 {
@@ -545,6 +565,14 @@ impl Check for C04 {
                         for k in [1e-5f32, 1e3] {
                             let stk = StyleSpec { width: 8.0 * k, ..st.clone() };
                             account(run, 9000 + s, l, &mk(k, false), &stk, &[1.0 / k, 0., 0., 1.0 / k, 0., 0.], false);
+                        }
+                        // the same polyline far from the user-space origin, brought back by a translation
+                        for (ox, oy) in [(16384.0f32, 20000.0f32), (-30000.0, 9000.0)] {
+                            let mut ops: Vec<POp> = pts.iter().enumerate().map(|(j, p)| if j == 0 { POp::M(p.0 + ox, p.1 + oy) } else { POp::L(p.0 + ox, p.1 + oy) }).collect();
+                            if variant == 3 {
+                                ops.push(POp::Z);
+                            }
+                            account(run, 9000 + s, l, &PathSpec::new(ops), &st, &[1., 0., 0., 1., -ox, -oy], false);
                         }
                     }
                 }
